@@ -85,7 +85,12 @@ def step (st : St) (cmd : String) (m : KV) : Option (St × String) :=
     | .packet t data => if !(rowsPresent st t data hidden) then none
     | _ => pure ()
     let (srv, d) := decide st.o.crypto st.srv stream hidden now
-    pure ({ st with srv := srv }, showDecision d)
+    -- `upg=0`: net/http + gorilla refuse to upgrade this WebSocket request (computed by the harness with the
+    -- libraries alone): an ACCEPTED connection then gets no handshake reply and is closed; the bookkeeping stands
+    let upg := (getInt m "upg").getD 1
+    let isWs := match readFirst stream with | .packet .ws _ => true | _ => false
+    let refused := upg == 0 && isWs && (match d with | .proxy _ _ _ => true | .admin => true | _ => false)
+    pure ({ st with srv := srv }, if refused then "close" else showDecision d)
   | "auth.first" => do
     let tr ← get m "tr"
     let t ← (if tr = "tls" then some Transport.tls else if tr = "ws" then some Transport.ws else none)
